@@ -40,7 +40,7 @@ type CallCase struct {
 	Rounds int        `json:"rounds"`
 }
 
-var calleeKinds = []string{"go", "go", "lua", "luava", "lua_va_ret", "lua_tail_go", "lua_tail_lua", "lua_open",
+var calleeKinds = []string{"go", "go", "lua", "luava", "lua_va_ret", "lua_ret_params", "lua_tail_go", "lua_tail_lua", "lua_open",
 	"ctable_go", "ctable_lua", "cud_go", "cud_lua", "nc_nil", "nc_num", "nc_table"}
 
 func apiProtected(api string) bool { return api == "PCall" || api == "CallByParamP" }
@@ -52,7 +52,7 @@ func (s CallSpec) hasSelf() bool {
 }
 func (s CallSpec) luaImpl() bool {
 	switch s.Callee {
-	case "lua", "luava", "lua_va_ret", "lua_tail_go", "lua_tail_lua", "lua_open", "ctable_lua", "cud_lua":
+	case "lua", "luava", "lua_va_ret", "lua_ret_params", "lua_tail_go", "lua_tail_lua", "lua_open", "ctable_lua", "cud_lua":
 		return true
 	}
 	return false
@@ -267,6 +267,22 @@ func (r *callRun) makeCallee(ci int, s CallSpec) (callee lua.LValue, sees []lua.
 			}
 			fmt.Fprintf(&b, "  return %s\n", strings.Join(lits, ", "))
 			results = fixedResults(1)
+		case "lua_ret_params":
+			// returns its own leading parameters: values that sit in registers directly below other live registers (the
+			// remaining parameters, the locals), not in fresh registers at the top
+			if st := luaFailStmt(ci, s.Fail); st != "" {
+				fmt.Fprintf(&b, "  %s\n", st)
+			}
+			np := s.Produced
+			if np > s.NPar {
+				np = s.NPar
+			}
+			var ps []string
+			for k := 1; k <= np; k++ {
+				ps = append(ps, fmt.Sprintf("p%d", k))
+			}
+			fmt.Fprintf(&b, "  return %s\n", strings.Join(ps, ", "))
+			results = append(results, sees[:np]...)
 		case "lua_va_ret":
 			if st := luaFailStmt(ci, s.Fail); st != "" {
 				fmt.Fprintf(&b, "  %s\n", st)
@@ -702,6 +718,10 @@ func callOracle(k *vf.C, c *CallCase) error {
 func resultsCount(s CallSpec) []struct{} {
 	n := s.Produced
 	switch s.Callee {
+	case "lua_ret_params":
+		if n > s.NPar {
+			n = s.NPar
+		}
 	case "lua_va_ret":
 		n = s.NArgs - s.NPar
 		if s.hasSelf() {
@@ -791,7 +811,7 @@ func TestCallContract(t *testing.T) {
 func TestCallMatrix(t *testing.T) {
 	si, sn := vf.Shard()
 	apis := []string{"Call", "PCall", "CallByParam", "CallByParamP"}
-	callees := []string{"go", "lua", "luava", "lua_va_ret", "lua_tail_go", "lua_tail_lua", "lua_open", "ctable_go", "ctable_lua", "cud_go", "cud_lua"}
+	callees := []string{"go", "lua", "luava", "lua_va_ret", "lua_ret_params", "lua_tail_go", "lua_tail_lua", "lua_open", "ctable_go", "ctable_lua", "cud_go", "cud_lua"}
 	nrets := []int{-1, 0, 1, 2, 3, 5}
 	n := 0
 	for _, depth0 := range []bool{true, false} {
